@@ -518,7 +518,7 @@ def r04_12(ctx) -> None:
                                   f"`{trait}` is read from {sorted(owners)} but the branch it selects works with {sorted(got)}: with recipients of mixed algorithms "
                                   f"the trait of one algorithm decides how another one is used", f"if <alg>.{trait}: <alg>.…(…) on the same object",
                                   construct=f"{trait} read from {sorted(owners)} for {sorted(got)} in {fn.short}")
-    ctx.count("R04.12", n, 5, "uses of an algorithm object under a branch on one of its traits")
+    ctx.count("R04.12", n, 10, "uses of an algorithm object under a branch on one of its traits")
 
 
 def run(ctx) -> None:
